@@ -80,7 +80,7 @@ func ruleR25(p *Prog) []Ob {
 	}
 	// (a2) the copy is skipped only where source and destination were compared equal in size
 	{
-		ob := Ob{Rule: "R25", Inst: "a2:skip-needs-equal-size:" + funcLabel(cp), Props: props, Pos: p.posStr(cp.Pos()), Func: funcLabel(cp), Nontrivial: true}
+		ob := Ob{Rule: "R25", Inst: "a2:skip-needs-equal-size:" + funcLabel(cp), Props: []string{"C20", "C11"}, Pos: p.posStr(cp.Pos()), Func: funcLabel(cp), Nontrivial: true}
 		var copies []*ssa.Call
 		for _, b := range cp.Blocks {
 			for _, ins := range b.Instrs {
